@@ -1077,6 +1077,1079 @@ def suite_layouts(ctx: Ctx, real: Real, drv, n_programs: int):
 
 
 # ---------------------------------------------------------------------------
+# systematic inputs for a crown (JSON form): each mapped key present / absent / ill-typed,
+# each container node of right / wrong kind, extra keys present / absent
+# ---------------------------------------------------------------------------
+
+GOOD = {"any": ["v", 3, None, [1], {"z": 1}], "int": [5, 0, -2], "str": ["s", ""], "neg": [4, -1]}
+BAD = {"int": ["x", None, True, [1]], "str": [1, None], "neg": ["x", None, [2]]}
+
+
+def crown_sites(crown, path=()):
+    """(path, crown) of every node, root first"""
+    yield path, crown
+    if crown["t"] == "dict":
+        for k, c in crown["map"]:
+            yield from crown_sites(c, (*path, k))
+    elif crown["t"] == "list":
+        for i, c in enumerate(crown["map"]):
+            yield from crown_sites(c, (*path, i))
+
+
+def base_datum(crown, kinds, rng, salt=0):
+    t = crown["t"]
+    if t == "dict":
+        return {k: base_datum(c, kinds, rng, salt) for k, c in crown["map"]}
+    if t == "list":
+        return [base_datum(c, kinds, rng, salt) for c in crown["map"]]
+    if t == "field":
+        pool = GOOD[kinds.get(crown["id"], "any")]
+        return pool[(salt + len(crown["id"])) % len(pool)]
+    return rng.choice(["gap", None, 0])
+
+
+def get_at(data, path):
+    for el in path:
+        data = data[el]
+    return data
+
+
+def set_at(data, path, value):
+    """returns a new datum with `value` at `path` (path must exist)"""
+    if not path:
+        return value
+    head, rest = path[0], path[1:]
+    if isinstance(data, dict):
+        out = dict(data)
+        out[head] = set_at(data[head], rest, value)
+        return out
+    out = list(data)
+    out[head] = set_at(data[head], rest, value)
+    return out
+
+
+def del_at(data, path):
+    """remove the element: a dict key is deleted, a list is truncated at the index"""
+    parent = get_at(data, path[:-1])
+    if isinstance(parent, dict):
+        new = {k: v for k, v in parent.items() if k != path[-1]}
+    else:
+        new = list(parent[:path[-1]])
+    return set_at(data, path[:-1], new)
+
+
+WRONG_FOR_DICT = [None, 5, "text", [], [1, 2], True, Opaque("o")]
+WRONG_FOR_LIST = [None, 5, {}, {"a": 1}, True, Opaque("o"), "text", "", "abcdefgh"]
+
+
+def mutations(crown, kinds, base):
+    """list of (label, datum) : one fault per datum"""
+    out = [("valid", base)]
+    for path, c in crown_sites(crown):
+        t = c["t"]
+        ps = "/".join(map(str, path))
+        if path:
+            out.append((f"absent:{t}@{ps}", del_at(base, path)))
+        if t == "field":
+            for i, bad in enumerate(BAD.get(kinds.get(c["id"], "any"), [])):
+                out.append((f"illtyped{i}@{ps}", set_at(base, path, bad)))
+        elif t == "dict":
+            for i, w in enumerate(WRONG_FOR_DICT):
+                out.append((f"wrongkind{i}:dict@{ps}", set_at(base, path, w)))
+            cur = get_at(base, path)
+            out.append((f"extra1@{ps}", set_at(base, path, {**cur, "zz_unknown": 1})))
+            out.append((f"extra2@{ps}", set_at(base, path, {"u_first": [1], **cur, "zz_unknown": None})))
+            out.append((f"empty:dict@{ps}", set_at(base, path, {})))
+        elif t == "list":
+            for i, w in enumerate(WRONG_FOR_LIST):
+                out.append((f"wrongkind{i}:list@{ps}", set_at(base, path, w)))
+            cur = get_at(base, path)
+            out.append((f"extraitem@{ps}", set_at(base, path, [*cur, "more"])))
+            out.append((f"extraitems@{ps}", set_at(base, path, [*cur, 1, 2])))
+            out.append((f"empty:list@{ps}", set_at(base, path, [])))
+            if cur:
+                out.append((f"short@{ps}", set_at(base, path, cur[:-1])))
+            if all(x["t"] in ("field", "none") for x in c["map"]) and cur:
+                out.append((f"strseq@{ps}", set_at(base, path, "x" * len(cur))))
+        else:
+            out.append((f"gapvalue@{ps}", set_at(base, path, {"any": "thing"})))
+    return out
+
+
+def combined_mutations(rng, crown, kinds, base, singles, n):
+    """n data with two or three independent faults (exercises error accumulation of DebugTrail.ALL)"""
+    out = []
+    sites = list(crown_sites(crown))
+    for _ in range(n):
+        datum = base
+        labels = []
+        for _ in range(rng.choice([2, 2, 3])):
+            path, c = rng.choice(sites)
+            try:
+                get_at(datum, path)
+            except (KeyError, IndexError, TypeError):
+                continue
+            t = c["t"]
+            r = rng.random()
+            try:
+                if t == "field":
+                    bad = BAD.get(kinds.get(c["id"], "any"))
+                    if bad and r < 0.6:
+                        datum = set_at(datum, path, rng.choice(bad))
+                        labels.append("illtyped")
+                    elif path:
+                        datum = del_at(datum, path)
+                        labels.append("absent")
+                elif t == "dict":
+                    cur = get_at(datum, path)
+                    if r < 0.4 and isinstance(cur, dict):
+                        datum = set_at(datum, path, {**cur, f"zz{len(labels)}": 0})
+                        labels.append("extra")
+                    elif r < 0.7:
+                        datum = set_at(datum, path, rng.choice(WRONG_FOR_DICT))
+                        labels.append("wrongkind")
+                    elif path:
+                        datum = del_at(datum, path)
+                        labels.append("absent")
+                elif t == "list":
+                    cur = get_at(datum, path)
+                    if r < 0.3 and isinstance(cur, list):
+                        datum = set_at(datum, path, [*cur, "more"])
+                        labels.append("extraitem")
+                    elif r < 0.5 and isinstance(cur, list) and cur:
+                        datum = set_at(datum, path, cur[:-1])
+                        labels.append("short")
+                    elif r < 0.8:
+                        datum = set_at(datum, path, rng.choice(WRONG_FOR_LIST))
+                        labels.append("wrongkind")
+                    elif path:
+                        datum = del_at(datum, path)
+                        labels.append("absent")
+            except (KeyError, IndexError, TypeError):
+                continue
+        if len(labels) >= 2:
+            out.append(("combo:" + "+".join(labels), datum))
+    return out
+
+
+# ---------------------------------------------------------------------------
+# canonical outcomes
+# ---------------------------------------------------------------------------
+
+def safe_enc(v):
+    try:
+        return canon_val(enc_val(v))
+    except ValueError:
+        return {"repr": repr(v)[:80]}
+
+
+def canon_real_error(real: "Real", e):
+    from adaptix import load_error as le
+    from adaptix.struct_trail import get_trail
+    collections_abc = __import__("collections.abc").abc
+    trail = []
+    for el in get_trail(e):
+        trail.append(el if isinstance(el, (str, int)) else repr(el))
+    out = {"cls": type(e).__name__, "trail": trail}
+    if isinstance(e, le.ExcludedTypeLoadError):
+        return out                               # field order of this class is C05/C06's subject
+    if isinstance(e, le.TypeLoadError):
+        ex = e.expected_type
+        out["expected"] = "Mapping" if ex is collections_abc.Mapping else "Sequence" if ex is collections_abc.Sequence \
+            else getattr(ex, "__name__", repr(ex))
+        out["input"] = safe_enc(e.input_value)
+    elif isinstance(e, (le.NoRequiredFieldsLoadError, le.ExtraFieldsLoadError)):
+        out["fields"] = sorted(e.fields)
+        out["input"] = safe_enc(e.input_value)
+    elif isinstance(e, (le.NoRequiredItemsLoadError, le.ExtraItemsLoadError)):
+        out["len"] = e.expected_len
+        out["input"] = safe_enc(e.input_value)
+    elif hasattr(e, "input_value"):
+        out["input"] = safe_enc(e.input_value)
+    return out
+
+
+def canon_model_error(e):
+    out = {"cls": e["cls"], "trail": e["trail"]}
+    if e["cls"] == "ExcludedTypeLoadError":
+        return out
+    for k in ("expected", "len"):
+        if k in e:
+            out[k] = e[k]
+    if "fields" in e:
+        out["fields"] = sorted(e["fields"])
+    if "input" in e:
+        out["input"] = canon_val(e["input"])
+    return out
+
+
+def sort_errors(es):
+    import json
+    return sorted(es, key=lambda x: json.dumps(x, sort_keys=True, default=repr))
+
+
+def canon_model_load(rep):
+    if rep is None or "ok" not in rep:
+        return rep
+    r = rep["ok"]
+    if r["r"] == "ok":
+        out = {"r": "ok", "args": {k: canon_val(v) for k, v in r["args"]}}
+        if "extra" in r:
+            out["extra"] = canon_val(r["extra"])
+        return out
+    if r["r"] == "error":
+        return {"r": "error", "e": canon_model_error(r["e"])}
+    if r["r"] == "aggregate":
+        return {"r": "aggregate", "es": sort_errors([canon_model_error(e) for e in r["es"]])}
+    return r
+
+
+def run_real_loader(real: "Real", loader_fn, datum, mode, observe):
+    """canonical outcome of a real loader call; `observe(obj)` extracts {'args':..., 'extra':...}"""
+    from adaptix.load_error import AggregateLoadError, LoadError
+    try:
+        obj = loader_fn(datum)
+    except AggregateLoadError as e:
+        if mode != "all":
+            return {"r": "error", "e": {"cls": "AggregateLoadError(unexpected mode)"}}
+        return {"r": "aggregate", "es": sort_errors([canon_real_error(real, x) for x in e.exceptions])}
+    except LoadError as e:
+        return {"r": "error", "e": canon_real_error(real, e)}
+    except Exception as e:  # noqa: BLE001
+        return {"r": "escape", "cls": type(e).__name__, "detail": str(e)[:120]}
+    return {"r": "ok", **observe(obj)}
+
+
+# ---------------------------------------------------------------------------
+# suite (b1): generated code for hand-made crowns (shape and layout injected like the unit tests do)
+# ---------------------------------------------------------------------------
+
+@dataclass
+class Gauge:
+    kwargs: dict
+    saturated: Optional[dict] = None
+
+
+def gauge(**kwargs):
+    return Gauge(kwargs)
+
+
+def gauge_saturator(obj, extra):
+    obj.saturated = extra
+
+
+def gen_crown_program(rng):
+    """a random InputShape/OutputShape + crown + extra move, not restricted to what name_mapping can produce"""
+    n = rng.choice([1, 2, 3, 3, 4, 5])
+    ids = rng.sample(["a", "b", "c", "d", "e", "f"], n)
+    fields = []
+    for fid in ids:
+        tp = rng.choice(TYPE_POOL)
+        r = rng.random()
+        if r < 0.5:
+            fields.append({"id": fid, "type": tp, "required": True, "default": None})
+        elif r < 0.8:
+            dflt = {"int": 7, "neg": 7, "str": "dflt", "any": rng.choice([None, True, 0, "d", [], {}])}[tp]
+            fields.append({"id": fid, "type": tp, "required": False, "default": {"v": dflt}})
+        else:
+            fields.append({"id": fid, "type": tp, "required": False, "default": None})       # packed
+    move = rng.choice([None, None, None, "kwargs", "saturate", "targets", "targets"])
+    targets = []
+    if move == "targets":
+        cands = [f for f in fields if f["type"] == "any"]
+        if cands and len(fields) > 1:
+            targets = [f["id"] for f in rng.sample(cands, 1 if len(cands) == 1 else rng.choice([1, 1, 2]))]
+            move = {"targets": targets}
+        else:
+            move = None
+    can_collect = move is not None
+    in_crown = [f for f in fields if f["id"] not in targets and (f["required"] or rng.random() < 0.85)]
+
+    def policy():
+        return rng.choice(["skip", "forbid", "collect"] if can_collect else ["skip", "forbid"])
+
+    def build(fs, depth, under_list=False):
+        is_list = rng.random() < 0.3 and all(f["required"] for f in fs)
+        if depth == 0 and move == "kwargs":
+            is_list = False      # `**extra` needs a mapping; the provider refuses collecting policies with lists
+        children = []
+        fs = list(fs)
+        rng.shuffle(fs)
+        i = 0
+        while i < len(fs):
+            if depth < 2 and rng.random() < 0.3:
+                k = rng.randint(1, min(3, len(fs) - i))
+                children.append(build(fs[i:i + k], depth + 1))
+                i += k
+            else:
+                children.append({"t": "field", "id": fs[i]["id"]})
+                i += 1
+        while rng.random() < 0.2:
+            children.insert(rng.randint(0, len(children)), {"t": "none"})
+        if depth < 2 and rng.random() < 0.08:
+            children.append(build([], depth + 1))
+        if is_list:
+            return {"t": "list", "map": children, "policy": rng.choice(["skip", "forbid"])}
+        keys = rng.sample(["k", "x", "y", "z", "w", "q", "m", "n2", "o", "p"], len(children))
+        return {"t": "dict", "map": [[k, c] for k, c in zip(keys, children)], "policy": policy()}
+
+    crown = build(in_crown, 0)
+    if targets and crown.get("policy") != "collect" and any(not f["required"] for f in fields if f["id"] in targets):
+        # ExtraTargets with a non-collecting root and an optional target is not producible by the name-layout
+        # provider (targets imply ExtraCollect); the generated code then references an unassigned `f_<target>`
+        # (NameError) — recorded in notes/C03.md, outside the property's quantifier
+        if crown["t"] == "dict":
+            crown["policy"] = "collect"
+        else:
+            for f in fields:
+                if f["id"] in targets:
+                    f["required"], f["default"] = True, None
+    return {"fields": fields, "move": move, "crown": crown}
+
+
+class CrownReal:
+    """real loaders/dumpers for hand-made crowns"""
+
+    def __init__(self, real: Real):
+        from adaptix import bound
+        from adaptix._internal.model_tools.definitions import (
+            InputField,
+            InputShape,
+            OutputField,
+            OutputShape,
+            Param,
+            ParamKind,
+            ParamKwargs,
+            create_attr_accessor,
+            create_key_accessor,
+        )
+        from adaptix._internal.morphing.model.dumper_provider import ModelDumperProvider
+        from adaptix._internal.morphing.model.loader_provider import ModelLoaderProvider
+        self.real = real
+        self.bound = bound
+        self.InputField, self.InputShape, self.Param, self.ParamKind, self.ParamKwargs = \
+            InputField, InputShape, Param, ParamKind, ParamKwargs
+        self.OutputField, self.OutputShape = OutputField, OutputShape
+        self.create_attr_accessor, self.create_key_accessor = create_attr_accessor, create_key_accessor
+        self.ModelDumperProvider, self.ModelLoaderProvider = ModelDumperProvider, ModelLoaderProvider
+
+    def default(self, f):
+        r = self.real
+        d = f.get("default")
+        if d is None:
+            return r.NoDefault()
+        v = d["v"]
+        if v == [] and type(v) is list:
+            return r.DefaultFactory(list)
+        if v == {} and type(v) is dict:
+            return r.DefaultFactory(dict)
+        return r.DefaultValue(v)
+
+    def inp_crown(self, c):
+        cd = self.real.cd
+        pol = {"skip": cd.ExtraSkip(), "forbid": cd.ExtraForbid(), "collect": cd.ExtraCollect()}
+        if c["t"] == "dict":
+            return cd.InpDictCrown({k: self.inp_crown(v) for k, v in c["map"]}, extra_policy=pol[c["policy"]])
+        if c["t"] == "list":
+            return cd.InpListCrown(tuple(self.inp_crown(v) for v in c["map"]), extra_policy=pol[c["policy"]])
+        if c["t"] == "field":
+            return cd.InpFieldCrown(c["id"])
+        return cd.InpNoneCrown()
+
+    def loader(self, prog, mode, strict):
+        r = self.real
+        cd = r.cd
+        fields = prog["fields"]
+        shape = self.InputShape(
+            fields=tuple(
+                self.InputField(id=f["id"], type=r.py_type[f["type"]], default=self.default(f), metadata={},
+                                is_required=f["required"], original=None)
+                for f in fields
+            ),
+            params=tuple(self.Param(field_id=f["id"], name=f["id"], kind=self.ParamKind.KW_ONLY) for f in fields),
+            constructor=gauge,
+            kwargs=self.ParamKwargs(Any),
+            overriden_types=frozenset(f["id"] for f in fields),
+        )
+        mv = prog["move"]
+        move = None if mv is None else cd.ExtraKwargs() if mv == "kwargs" else \
+            cd.ExtraSaturate(gauge_saturator) if mv == "saturate" else cd.ExtraTargets(tuple(mv["targets"]))
+        layout = cd.InputNameLayout(crown=self.inp_crown(prog["crown"]), extra_move=move)
+        dt = {"disable": r.DebugTrail.DISABLE, "first": r.DebugTrail.FIRST, "all": r.DebugTrail.ALL}[mode]
+        retort = r.Retort(
+            recipe=[
+                r.ValueProvider(r.InputShapeRequest, shape),
+                r.ValueProvider(cd.InputNameLayoutRequest, layout),
+                *r.codec_recipe,
+            ],
+            debug_trail=dt, strict_coercion=strict,
+        )
+        return retort.get_loader(Gauge)
+
+    def observe(self, prog):
+        ids = {f["id"] for f in prog["fields"]}
+        mv = prog["move"]
+
+        def obs(obj: Gauge):
+            args = {k: safe_enc(v) for k, v in obj.kwargs.items() if k in ids}
+            out = {"args": args}
+            if mv == "kwargs":
+                out["extra"] = safe_enc({k: v for k, v in obj.kwargs.items() if k not in ids})
+            elif mv == "saturate":
+                out["extra"] = safe_enc(obj.saturated)
+            return out
+        return obs
+
+
+def load_request(prog, mode, strict, datum):
+    return {"op": "load", "mode": mode, "strict": strict, "move": prog["move"],
+            "fields": [lean_field(f) for f in prog["fields"]],
+            "loaders": {f["id"]: f["type"] for f in prog["fields"]},
+            "crown": prog["crown"], "data": enc_val(datum)}
+
+
+MODES = ("disable", "first", "all")
+
+
+def oracle_crown_load(ctx, prog, label, datum, mode, strict, real_out, suite="gen-load"):
+    """direct oracle for an explicit crown (real code only): a field is read from exactly the path of its
+    leaf; absent optional fields take their default / are not passed; the unknown keys of every dict node
+    go where the policy sends them and nowhere else"""
+    case = {"suite": suite, "prog": prog, "mode": mode, "strict": strict, "label": label, "data": safe_enc(datum)}
+    kinds = {f["id"]: f["type"] for f in prog["fields"]}
+    by_id = {f["id"]: f for f in prog["fields"]}
+    leaves = [(p, c) for p, c in crown_sites(prog["crown"]) if c["t"] == "field"]
+
+    def py_loader(kind, v):
+        if kind == "any":
+            return True, v
+        if kind == "int":
+            return type(v) is int, v
+        if kind == "str":
+            return type(v) is str, v
+        if kind == "neg":
+            return type(v) is int, (-v if type(v) is int else None)
+        raise KeyError(kind)
+
+    def navigate(data, path):
+        """value at path | 'absent' | 'badkind'; a node is of the right kind iff dict for str keys, list (or, in
+        lax mode, str) for int keys"""
+        for el in path:
+            if isinstance(el, str):
+                if type(data) is not dict:
+                    return "badkind", None
+                if el not in data:
+                    return "absent", None
+                data = data[el]
+            else:
+                if type(data) is str and not strict:
+                    if el >= len(data):
+                        return "absent", None
+                    data = data[el]
+                    continue
+                if type(data) is not list:
+                    return "badkind", None
+                if el >= len(data):
+                    return "absent", None
+                data = data[el]
+        return "found", data
+
+    if real_out["r"] == "ok":
+        for path, c in leaves:
+            fid = c["id"]
+            st, v = navigate(datum, path)
+            f = by_id[fid]
+            if st == "found":
+                ok, expected = py_loader(kinds[fid], v)
+                if not ok:
+                    ctx.fail(f"{suite}:ill-typed-accepted", f"{mode}/{strict}: field {fid} at {list(path)} holds {v!r}, "
+                             f"its loader rejects it, but the model loader succeeded", case)
+                    return
+                if real_out["args"].get(fid, "<not passed>") != safe_enc(expected):
+                    ctx.fail(f"{suite}:wrong-path", f"{mode}/{strict}: field {fid} must be read from path {list(path)} "
+                             f"(value {expected!r}) but the constructor got {real_out['args'].get(fid, '<not passed>')!r}", case)
+                    return
+            elif st == "absent":
+                if f["required"]:
+                    ctx.fail(f"{suite}:missing-required-accepted", f"{mode}/{strict}: required field {fid} absent at "
+                             f"{list(path)} but loading succeeded", case)
+                    return
+                if f["default"] is not None:
+                    if real_out["args"].get(fid, "<not passed>") != safe_enc(f["default"]["v"]):
+                        ctx.fail(f"{suite}:absent-optional-default", f"{mode}/{strict}: absent optional field {fid} did not "
+                                 f"get its default: {real_out['args'].get(fid, '<not passed>')!r}", case)
+                        return
+                elif fid in real_out["args"]:
+                    ctx.fail(f"{suite}:absent-optional-passed", f"{mode}/{strict}: absent optional field {fid} without default "
+                             f"was passed to the constructor", case)
+                    return
+            else:
+                ctx.fail(f"{suite}:wrong-kind-accepted", f"{mode}/{strict}: a container on the path {list(path)} of field "
+                         f"{fid} has the wrong kind but loading succeeded", case)
+                return
+        # unknown keys
+        expected_extra = py_extra_skeleton(prog["crown"], datum)
+        mv = prog["move"]
+        root_collect = prog["crown"].get("policy") == "collect"
+        if mv in ("kwargs", "saturate"):
+            if real_out.get("extra") != safe_enc(expected_extra):
+                ctx.fail(f"{suite}:extra-{mv}", f"{mode}/{strict}: extra delivered to {mv} is {real_out.get('extra')!r}, "
+                         f"the unknown keys (per node) are {expected_extra!r}", case)
+                return
+        elif isinstance(mv, dict):
+            for t in mv["targets"]:
+                want = expected_extra if root_collect else ({} if by_id[t]["required"] else None)
+                got = real_out["args"].get(t, None if want is None else "<not passed>")
+                if want is None:
+                    if t in real_out["args"] and by_id[t]["default"] is None:
+                        ctx.fail(f"{suite}:extra-target", f"{mode}/{strict}: optional target {t} was passed {got!r} "
+                                 f"although nothing is collected", case)
+                        return
+                elif got != safe_enc(want):
+                    ctx.fail(f"{suite}:extra-target", f"{mode}/{strict}: extra target {t} got {got!r}, "
+                             f"the unknown keys are {want!r}", case)
+                    return
+        # forbid: success means no unknown key at forbidding nodes
+        for path, c in crown_sites(prog["crown"]):
+            if c["t"] == "dict" and c["policy"] == "forbid":
+                st, v = navigate(datum, path)
+                if st == "found" and type(v) is dict and set(v) - {k for k, _ in c["map"]}:
+                    ctx.fail(f"{suite}:forbid-accepted", f"{mode}/{strict}: unknown keys at {list(path)} accepted by ExtraForbid", case)
+                    return
+    else:
+        errs = real_out.get("es") or ([real_out["e"]] if "e" in real_out else [])
+        for e in errs:
+            if e.get("cls") == "ExtraFieldsLoadError":
+                # carries exactly the unknown keys of the dict node its trail points to
+                trail = e["trail"] if mode != "disable" else None
+                ok = False
+                for path, c in crown_sites(prog["crown"]):
+                    if c["t"] != "dict" or c["policy"] != "forbid":
+                        continue
+                    if trail is not None and list(path) != trail:
+                        continue
+                    st, v = navigate(datum, path)
+                    if st == "found" and type(v) is dict and sorted(set(v) - {k for k, _ in c["map"]}) == e["fields"] \
+                            and e["fields"]:
+                        ok = True
+                if not ok:
+                    ctx.fail(f"{suite}:forbid-wrong-set", f"{mode}/{strict}: ExtraFieldsLoadError {e} does not carry exactly "
+                             f"the unknown keys of a forbidding dict node", case)
+                    return
+            if e.get("cls") == "NoRequiredFieldsLoadError":
+                trail = e["trail"] if mode != "disable" else None
+                ok = False
+                for path, c in crown_sites(prog["crown"]):
+                    if c["t"] != "dict" or (trail is not None and list(path) != trail):
+                        continue
+                    st, v = navigate(datum, path)
+                    if st != "found" or type(v) is not dict:
+                        continue
+                    req = sorted(k for k, sub in c["map"]
+                                 if not (sub["t"] == "field" and not by_id[sub["id"]]["required"]) and k not in v)
+                    if req and req == e["fields"]:
+                        ok = True
+                if not ok:
+                    ctx.fail(f"{suite}:missing-wrong-set", f"{mode}/{strict}: NoRequiredFieldsLoadError {e} does not name "
+                             f"exactly the missing required keys of a dict node", case)
+                    return
+        if real_out["r"] == "escape":
+            ctx.fail(f"{suite}:escape", f"{mode}/{strict}: {real_out['cls']} escaped from the generated loader: "
+                     f"{real_out.get('detail')}", case)
+
+
+def py_extra_skeleton(crown, data):
+    """Unknown keys per dict node, delivered at the mirrored position (see ASSUMPTIONS): for a dict node the
+    items of the datum whose key is not in the node's map (only if the node collects), plus one entry per
+    nested branch; for a list node one entry per element ({} for leaves)."""
+    if crown["t"] == "dict":
+        out = {}
+        for k, c in crown["map"]:
+            if c["t"] in ("dict", "list"):
+                out[k] = py_extra_skeleton(c, data[k])
+        if crown["policy"] == "collect":
+            known = {k for k, _ in crown["map"]}
+            for k, v in data.items():
+                if k not in known:
+                    out[k] = v
+        return out
+    if crown["t"] == "list":
+        return [py_extra_skeleton(c, data[i]) if c["t"] in ("dict", "list") else {} for i, c in enumerate(crown["map"])]
+    return {}
+
+
+def suite_gen_load(ctx: Ctx, real: Real, drv, n_programs: int, n_combo: int):
+    cr = CrownReal(real)
+    work = []
+    for _ in range(n_programs):
+        prog = gen_crown_program(ctx.rng)
+        kinds = {f["id"]: f["type"] for f in prog["fields"]}
+        base = base_datum(prog["crown"], kinds, ctx.rng, salt=ctx.rng.randrange(5))
+        singles = mutations(prog["crown"], kinds, base)
+        data = singles + combined_mutations(ctx.rng, prog["crown"], kinds, base, singles, n_combo)
+        work.append((prog, data))
+    requests, meta = [], []
+    for prog, data in work:
+        for mode in MODES:
+            for strict in (True, False):
+                for label, datum in data:
+                    requests.append(load_request(prog, mode, strict, datum))
+                    meta.append((prog, mode, strict, label, datum))
+    replies = drv.batch(requests) if drv else [None] * len(requests)
+    n = bad = 0
+    cache_key, loaders = None, {}
+    for (prog, mode, strict, label, datum), rep in zip(meta, replies):
+        if cache_key != id(prog):
+            cache_key, loaders = id(prog), {}
+        if (mode, strict) not in loaders:
+            try:
+                loaders[(mode, strict)] = cr.loader(prog, mode, strict)
+            except Exception as e:  # noqa: BLE001
+                raise InfraError(f"cannot create loader for hand-made crown {prog}: {e!r}")
+        real_out = run_real_loader(real, loaders[(mode, strict)], datum, mode, cr.observe(prog))
+        kind = label.split("@")[0].split(":")[0].rstrip("0123456789")
+        ctx.note_case({"prog": prog, "mode": mode, "strict": strict, "data": safe_enc(datum)},
+                      nontrivial=real_out["r"] == "ok" or label != "valid", kind=f"gen-load-{kind}")
+        ctx.dist[f"gen-load-outcome-{real_out['r']}"] += 1
+        for e in (real_out.get("es") or ([real_out["e"]] if "e" in real_out else [])):
+            ctx.dist[f"gen-load-err-{e.get('cls')}"] += 1
+        ctx.sample({"suite": "gen-load", "prog": prog, "mode": mode, "strict": strict, "label": label,
+                    "data": safe_enc(datum), "real": real_out}, every=4001)
+        oracle_crown_load(ctx, prog, label, datum, mode, strict, real_out)
+        if rep is not None:
+            n += 1
+            model_out = canon_model_load(rep)
+            cmp_real = {k: v for k, v in real_out.items() if k != "detail"}
+            if model_out != cmp_real:
+                bad += 1
+                ctx.disagree("gen-load", {"suite": "gen-load", "prog": prog, "mode": mode, "strict": strict,
+                                          "label": label, "data": safe_enc(datum)}, cmp_real, rep)
+    if drv:
+        ctx.suite("gen-load", n, bad)
+
+
+# ---------------------------------------------------------------------------
+# suite (b1, dump): generated dumper for hand-made crowns
+# ---------------------------------------------------------------------------
+
+class Dummy:
+    def __init__(self, **kwargs):
+        for k, v in kwargs.items():
+            setattr(self, k, v)
+
+    def __repr__(self):
+        return f"Dummy({self.__dict__})"
+
+
+EXTRACT_RESULTS = [{"v": {}}, {"v": {"ex1": 1}}, {"v": {"ex1": [1], "ex2": None}}, {"err": "ExtractMarkerError"}]
+
+
+class ExtractMarkerError(Exception):
+    pass
+
+
+def dummy_extractor(obj):
+    res = obj.extract_result_
+    if "err" in res:
+        raise ExtractMarkerError("extract")
+    return dict(res["v"])
+
+
+DUMP_KIND = {"any": "id", "int": "chk", "str": "chk", "neg": "neg"}
+DUMP_GOOD = {"any": ["v", 3, None, [1], {"z": 1}, True, 0], "int": [5, 0, 1, -2], "str": ["s", ""], "neg": [4, -1, 0, 7]}
+LOOKALIKE = [(True, 1), (1, True), (0, False), (False, 0), (None, 0), ("", None)]
+
+
+def py_dump_field(kind, v):
+    """harness field dumpers as plain functions: (ok, value | exception class)"""
+    if kind == "any":
+        return True, v
+    if v == "FAIL":
+        return False, "DumpMarkerError"
+    if kind in ("int", "str"):
+        return True, v
+    return True, -v
+
+
+def gen_out_program(rng):
+    n = rng.choice([1, 2, 3, 3, 4, 5])
+    ids = rng.sample(["a", "b", "c", "d", "e", "f"], n)
+    fields = []
+    for fid in ids:
+        tp = rng.choice(TYPE_POOL)
+        dflt = None
+        if rng.random() < 0.55:
+            dflt = {"v": {"int": rng.choice([7, 0, 1]), "neg": rng.choice([7, 0]), "str": rng.choice(["dflt", ""]),
+                          "any": rng.choice([None, True, False, 0, 1, "d", [], {}, [1]])}[tp]}
+        fields.append({"id": fid, "type": tp, "required": rng.random() < 0.75, "default": dflt})
+    mv = rng.choice([None, None, None, "extract", "targets", "targets"])
+    targets = []
+    if mv == "targets":
+        cands = [f for f in fields if f["type"] == "any"]
+        if cands and len(fields) > 1:
+            targets = [f["id"] for f in rng.sample(cands, 1 if len(cands) == 1 else rng.choice([1, 2, 2]))]
+            mv = {"targets": targets}
+        else:
+            mv = None
+    in_crown = [f for f in fields if f["id"] not in targets and rng.random() < 0.9]
+
+    def build(fs, depth):
+        is_list = rng.random() < 0.3 and all(f["required"] for f in fs) and not (depth == 0 and mv is not None)
+        children = []
+        fs = list(fs)
+        rng.shuffle(fs)
+        i = 0
+        while i < len(fs):
+            if depth < 2 and rng.random() < 0.3:
+                k = rng.randint(1, min(3, len(fs) - i))
+                children.append(build(fs[i:i + k], depth + 1))
+                i += k
+            else:
+                children.append({"t": "field", "id": fs[i]["id"]})
+                i += 1
+        while rng.random() < 0.2:
+            children.insert(rng.randint(0, len(children)), {"t": "none", "placeholder": rng.choice([None, None, 0, "ph"])})
+        if depth < 2 and rng.random() < 0.08:
+            children.append(build([], depth + 1))
+        if is_list:
+            return {"t": "list", "map": children}
+        keys = rng.sample(["k", "x", "y", "z", "w", "q", "m", "n2", "o", "p"], len(children))
+        by_id = {f["id"]: f for f in fields}
+        sieves = []
+        for k, c in zip(keys, children):
+            if c["t"] == "field" and by_id[c["id"]]["default"] is not None and rng.random() < 0.7:
+                sieves.append([k, enc_val(by_id[c["id"]]["default"]["v"])])
+        return {"t": "dict", "map": [[k, c] for k, c in zip(keys, children)], "sieves": sorted(sieves)}
+
+    return {"fields": fields, "move": mv, "crown": build(in_crown, 0)}
+
+
+def out_objects(rng, prog, n_combo):
+    """systematic objects: every field at a plain value / at its default / at a look-alike of the default /
+    absent (optional) / failing dumper; extra targets present/absent; extractor results"""
+    fields = prog["fields"]
+    targets = prog["move"]["targets"] if isinstance(prog["move"], dict) else []
+
+    def good(f, salt=0):
+        if f["id"] in targets:
+            return [{"t1": 1}, {}, {"t2": [2], "t3": None}][salt % 3]
+        pool = DUMP_GOOD[f["type"]]
+        return pool[(salt + ord(f["id"][0])) % len(pool)]
+
+    base = {f["id"]: good(f, rng.randrange(5)) for f in fields}
+    out = [("valid", dict(base))]
+    for f in fields:
+        fid = f["id"]
+        if fid in targets:
+            for i in range(3):
+                out.append((f"target{i}@{fid}", {**base, fid: good(f, i)}))
+            if len(targets) > 1:
+                out.append((f"target-collide@{fid}", {**base, **{t: {"same": t} for t in targets}}))
+        else:
+            for i in range(2):
+                out.append((f"value{i}@{fid}", {**base, fid: good(f, i + 1)}))
+            if f["default"] is not None:
+                d = f["default"]["v"]
+                out.append((f"default@{fid}", {**base, fid: [] if d == [] and type(d) is list else {} if d == {} and type(d) is dict else d}))
+                for a, b in LOOKALIKE:
+                    if type(d) is type(a) and d == a and f["type"] == "any":
+                        out.append((f"lookalike@{fid}", {**base, fid: b}))
+                if f["type"] == "neg" and type(d) is int:
+                    out.append((f"negdefault@{fid}", {**base, fid: -d}))
+            if f["type"] != "any":
+                out.append((f"faildump@{fid}", {**base, fid: "FAIL"}))
+        if not f["required"]:
+            out.append((f"absent@{fid}", {k: v for k, v in base.items() if k != fid}))
+    if len(fields) > 1:
+        out.append(("all-default", {f["id"]: (f["default"]["v"] if f["default"] is not None and f["id"] not in targets
+                                              else base[f["id"]]) for f in fields}))
+        out.append(("all-optional-absent", {f["id"]: base[f["id"]] for f in fields if f["required"]}))
+    for _ in range(n_combo):
+        obj = dict(base)
+        labels = []
+        for f in rng.sample(fields, min(len(fields), rng.choice([2, 2, 3]))):
+            r = rng.random()
+            if f["id"] in targets:
+                obj[f["id"]] = good(f, rng.randrange(3))
+                labels.append("target")
+            elif r < 0.35 and f["default"] is not None:
+                obj[f["id"]] = f["default"]["v"]
+                labels.append("default")
+            elif r < 0.6 and f["type"] != "any":
+                obj[f["id"]] = "FAIL"
+                labels.append("faildump")
+            elif r < 0.8 and not f["required"]:
+                obj.pop(f["id"], None)
+                labels.append("absent")
+        if len(labels) >= 2:
+            out.append(("combo:" + "+".join(labels), obj))
+    if prog["move"] == "extract":
+        res = []
+        for label, obj in out:
+            for i, ex in enumerate(EXTRACT_RESULTS if label in ("valid", "all-default") or label.startswith("faildump") else EXTRACT_RESULTS[1:2]):
+                res.append((f"{label}|extract{i}", obj, ex))
+        return res
+    return [(label, obj, None) for label, obj in out]
+
+
+class CrownRealDump(CrownReal):
+    def out_crown(self, c, by_id):
+        cd = self.real.cd
+        if c["t"] == "dict":
+            from adaptix._internal.morphing.name_layout.component import BuiltinSievesMaker
+            sieves = {}
+            sub = dict((k, v) for k, v in c["map"])
+            for k, _ in c["sieves"]:
+                sieves[k] = BuiltinSievesMaker()._create_sieve(by_id[sub[k]["id"]])
+            return cd.OutDictCrown({k: self.out_crown(v, by_id) for k, v in c["map"]}, sieves=sieves)
+        if c["t"] == "list":
+            return cd.OutListCrown(tuple(self.out_crown(v, by_id) for v in c["map"]))
+        if c["t"] == "field":
+            return cd.OutFieldCrown(c["id"])
+        return cd.OutNoneCrown(placeholder=self.real.DefaultValue(c["placeholder"]))
+
+    def dumper(self, prog, mode):
+        r = self.real
+        cd = r.cd
+        out_fields = tuple(
+            self.OutputField(id=f["id"], type=r.py_type[f["type"]], default=self.default(f), metadata={},
+                             accessor=self.create_attr_accessor(f["id"], is_required=f["required"]), original=None)
+            for f in prog["fields"]
+        )
+        shape = self.OutputShape(fields=out_fields, overriden_types=frozenset(f["id"] for f in prog["fields"]))
+        by_id = {f.id: f for f in out_fields}
+        mv = prog["move"]
+        move = None if mv is None else cd.ExtraExtract(dummy_extractor) if mv == "extract" else cd.ExtraTargets(tuple(mv["targets"]))
+        layout = cd.OutputNameLayout(crown=self.out_crown(prog["crown"], by_id), extra_move=move)
+        dt = {"disable": r.DebugTrail.DISABLE, "first": r.DebugTrail.FIRST, "all": r.DebugTrail.ALL}[mode]
+        retort = r.Retort(
+            recipe=[
+                r.ValueProvider(r.OutputShapeRequest, shape),
+                r.ValueProvider(cd.OutputNameLayoutRequest, layout),
+                *r.codec_recipe,
+            ],
+            debug_trail=dt,
+        )
+        return retort.get_dumper(Dummy)
+
+
+def trail_field(e):
+    from adaptix.struct_trail import Attr, ItemKey, get_trail
+    tr = list(get_trail(e))
+    if not tr:
+        return ""
+    el = tr[0]
+    if isinstance(el, Attr):
+        return el.name
+    if isinstance(el, ItemKey):
+        return el.key
+    return el if isinstance(el, str) else repr(el)
+
+
+def run_real_dumper(dumper_fn, obj, mode):
+    try:
+        res = dumper_fn(obj)
+    except BaseExceptionGroup as e:  # noqa: F821 - py3.11+
+        return {"r": "group", "errs": sorted([trail_field(x), type(x).__name__] for x in e.exceptions)}
+    except Exception as e:  # noqa: BLE001
+        out = {"r": "exc", "cls": type(e).__name__}
+        if mode != "disable":
+            out["field"] = trail_field(e)
+        return out
+    return {"r": "ok", "v": safe_enc(res)}
+
+
+ACCESS_ERRORS = {"attr": "AttributeError", "item": "KeyError"}
+
+
+def canon_model_dump(rep, mode, access="attr"):
+    if rep is None or "ok" not in rep:
+        return rep
+    r = rep["ok"]
+
+    def cls(c):
+        return ACCESS_ERRORS[access] if c == "AccessError" else c
+    if r["r"] == "ok":
+        return {"r": "ok", "v": canon_val(r["v"])}
+    if r["r"] == "error":
+        out = {"r": "exc", "cls": cls(r["cls"])}
+        if mode != "disable":
+            out["field"] = r["field"]
+        return out
+    if r["r"] == "group":
+        return {"r": "group", "errs": sorted([f, cls(c)] for f, c in r["errs"])}
+    if r["r"] == "escape":
+        out = {"r": "exc", "cls": r["cls"]}
+        if mode != "disable":
+            out["field"] = ""
+        return out
+    return r
+
+
+def dump_request(prog, mode, obj, extract):
+    req = {"op": "dump", "mode": mode, "move": prog["move"],
+           "fields": [lean_field(f) for f in prog["fields"]],
+           "dumpers": {f["id"]: DUMP_KIND[f["type"]] for f in prog["fields"]},
+           "crown": prog["crown"], "obj": [[k, enc_val(v)] for k, v in obj.items()]}
+    if extract is not None:
+        req["extracted"] = {"v": enc_val(extract["v"])} if "v" in extract else {"err": extract["err"]}
+    return req
+
+
+def py_sieve_keeps(default, value) -> bool:
+    """docs: 'Values that are equal to default will be stripped'; None/True/False defaults are compared by
+    identity by the generated code (the documented `is`/`==` split is an implementation choice: see notes)"""
+    if default is None or type(default) is bool:
+        return value is not default
+    return value != default
+
+
+def oracle_crown_dump(ctx, prog, label, obj, extract, mode, real_out, suite="gen-dump"):
+    """direct oracle (real code only): every presented field is written at exactly the path of its leaf, an
+    omit_default field is left out iff its value equals the default, gaps hold their placeholder, nothing else
+    is in the output except the extra data"""
+    case = {"suite": suite, "prog": prog, "mode": mode, "label": label,
+            "obj": {k: safe_enc(v) for k, v in obj.items()}, "extract": extract}
+    if real_out["r"] != "ok":
+        return
+    by_id = {f["id"]: f for f in prog["fields"]}
+    targets = prog["move"]["targets"] if isinstance(prog["move"], dict) else []
+
+    def expect(c, is_root=False):
+        """(present?, expected value) of a crown node, computed from the object only"""
+        t = c["t"]
+        if t == "field":
+            f = by_id[c["id"]]
+            if c["id"] not in obj:
+                return False, None
+            ok, v = py_dump_field(f["type"], obj[c["id"]])
+            return True, v
+        if t == "none":
+            return True, c["placeholder"]
+        if t == "list":
+            return True, [expect(x)[1] for x in c["map"]]
+        out = {}
+        sv = dict((k, dec_val(d)) for k, d in c["sieves"])
+        for k, x in c["map"]:
+            present, v = expect(x)
+            if not present:
+                continue
+            if k in sv and x["t"] == "field" and not py_sieve_keeps(sv[k], obj[x["id"]]):
+                continue
+            out[k] = v
+        return True, out
+
+    _, want = expect(prog["crown"], True)
+    if prog["move"] is not None and isinstance(want, dict):
+        extra = {}
+        if prog["move"] == "extract":
+            extra = dict(extract["v"])
+        else:
+            for t in targets:
+                if t in obj:
+                    extra.update(obj[t])
+        want = {**want, **extra}
+    if real_out["v"] != safe_enc(want):
+        sig = f"{suite}:wrong-output"
+        where = first_difference(real_out["v"], safe_enc(want))
+        node = crown_node_at(prog["crown"], where)
+        if node is not None and node[1]["t"] == "field" and node[2] and DUMP_KIND[by_id[node[1]["id"]]["type"]] != "id":
+            # the differing key is an omit_default key of a field whose dumper is not the identity
+            sig = "omit-default:non-identity-dumper"
+        ctx.fail(sig, f"{mode}: dumping {obj} gives {real_out['v']}, the layout prescribes {safe_enc(want)} "
+                 f"(first difference at {where})", case)
+
+
+def first_difference(a, b, path=()):
+    """path of the first difference between two canonical encoded values"""
+    if isinstance(a, dict) and isinstance(b, dict) and "dict" in a and "dict" in b:
+        da, db = dict((k, v) for k, v in a["dict"]), dict((k, v) for k, v in b["dict"])
+        for k in sorted(set(da) | set(db)):
+            if k not in da or k not in db:
+                return [*path, k]
+            if da[k] != db[k]:
+                return first_difference(da[k], db[k], (*path, k))
+        return list(path)
+    if isinstance(a, list) and isinstance(b, list) and len(a) == len(b):
+        for i, (x, y) in enumerate(zip(a, b)):
+            if x != y:
+                return first_difference(x, y, (*path, i))
+    return list(path)
+
+
+def crown_node_at(crown, path):
+    """(path, node, sieved?) of the crown node at `path`, None if there is none"""
+    node, sieved = crown, False
+    for el in path:
+        if node["t"] == "dict" and isinstance(el, str):
+            sub = dict((k, v) for k, v in node["map"])
+            if el not in sub:
+                return None
+            sieved = el in dict((k, v) for k, v in node["sieves"])
+            node = sub[el]
+        elif node["t"] == "list" and isinstance(el, int) and el < len(node["map"]):
+            node, sieved = node["map"][el], False
+        else:
+            return None
+    return path, node, sieved
+
+
+def suite_gen_dump(ctx: Ctx, real: Real, drv, n_programs: int, n_combo: int):
+    cr = CrownRealDump(real)
+    work = []
+    for _ in range(n_programs):
+        prog = gen_out_program(ctx.rng)
+        work.append((prog, out_objects(ctx.rng, prog, n_combo)))
+    requests, meta = [], []
+    for prog, objs in work:
+        for mode in MODES:
+            for label, obj, extract in objs:
+                requests.append(dump_request(prog, mode, obj, extract))
+                meta.append((prog, mode, label, obj, extract))
+    replies = drv.batch(requests) if drv else [None] * len(requests)
+    n = bad = 0
+    cache_key, dumpers = None, {}
+    for (prog, mode, label, obj, extract), rep in zip(meta, replies):
+        if cache_key != id(prog):
+            cache_key, dumpers = id(prog), {}
+        if mode not in dumpers:
+            try:
+                dumpers[mode] = cr.dumper(prog, mode)
+            except Exception as e:  # noqa: BLE001
+                dumpers[mode] = None
+                ctx.fail("omit-default:dumper-creation-" + type(e).__name__,
+                         f"no dumper can be generated for a valid layout with omit_default sieves: {e!r}",
+                         {"suite": "gen-dump", "prog": prog, "mode": mode, "label": "creation", "obj": {}, "extract": None})
+        if dumpers[mode] is None:
+            if rep is not None:
+                n += 1
+                bad += 1
+                ctx.disagree("gen-dump", {"suite": "gen-dump", "prog": prog, "mode": mode, "label": "creation"},
+                             "dumper creation failed", rep)
+            continue
+        dummy = Dummy(**obj)
+        dummy.extract_result_ = extract
+        real_out = run_real_dumper(dumpers[mode], dummy, mode)
+        kind = label.split("@")[0].split("|")[0].split(":")[0].rstrip("0123456789")
+        ctx.note_case({"prog": prog, "mode": mode, "obj": {k: safe_enc(v) for k, v in obj.items()}, "extract": extract},
+                      nontrivial=True, kind=f"gen-dump-{kind}")
+        ctx.dist[f"gen-dump-outcome-{real_out['r']}"] += 1
+        ctx.sample({"suite": "gen-dump", "prog": prog, "mode": mode, "label": label,
+                    "obj": {k: safe_enc(v) for k, v in obj.items()}, "real": real_out}, every=2003)
+        oracle_crown_dump(ctx, prog, label, obj, extract, mode, real_out)
+        if rep is not None:
+            n += 1
+            model_out = canon_model_dump(rep, mode)
+            if model_out != real_out:
+                bad += 1
+                ctx.disagree("gen-dump", {"suite": "gen-dump", "prog": prog, "mode": mode, "label": label,
+                                          "obj": {k: safe_enc(v) for k, v in obj.items()}, "extract": extract},
+                             real_out, rep)
+    if drv:
+        ctx.suite("gen-dump", n, bad)
+
+
+# ---------------------------------------------------------------------------
 # entry points
 # ---------------------------------------------------------------------------
 
@@ -1089,6 +2162,8 @@ def run(ctx: Ctx):
         except InfraError:
             drv = None
     suite_layouts(ctx, real, drv, ctx.budget(400, 6000))
+    suite_gen_load(ctx, real, drv, ctx.budget(60, 1500), n_combo=ctx.budget(6, 10))
+    suite_gen_dump(ctx, real, drv, ctx.budget(120, 2500), n_combo=ctx.budget(5, 10))
 
 
 def search(ctx: Ctx):
